@@ -287,8 +287,36 @@ fn data_locale(name: &str) -> icu_locid::Locale {
     icu_locid::Locale::try_from_bytes(name.as_bytes()).expect("oracle: locale name")
 }
 
-fn out(display: String, formatter: String, view: String, oracle: String) -> Value {
-    json!({"display": display, "formatter": formatter, "view": view, "oracle": oracle})
+fn panic_msg(e: Box<dyn std::any::Any + Send>) -> String {
+    e.downcast_ref::<String>().cloned().or_else(|| e.downcast_ref::<&str>().map(|s| s.to_string())).unwrap_or_default()
+}
+
+/// implementation (three flavours; a panic is reported as `impl_panic`) and oracle (an ICU4X error is `oracle_err`)
+/// are evaluated independently of each other
+fn out(imp: impl FnOnce() -> (String, String, String), oracle: impl FnOnce() -> Result<String, String>) -> Value {
+    let mut m = serde_json::Map::new();
+    match std::panic::catch_unwind(std::panic::AssertUnwindSafe(imp)) {
+        Ok((d, f, v)) => {
+            m.insert("display".into(), json!(d));
+            m.insert("formatter".into(), json!(f));
+            m.insert("view".into(), json!(v));
+        }
+        Err(e) => {
+            m.insert("impl_panic".into(), json!(panic_msg(e)));
+        }
+    }
+    match std::panic::catch_unwind(std::panic::AssertUnwindSafe(oracle)) {
+        Ok(Ok(s)) => {
+            m.insert("oracle".into(), json!(s));
+        }
+        Ok(Err(e)) => {
+            m.insert("oracle_err".into(), json!(e));
+        }
+        Err(e) => {
+            m.insert("oracle_err".into(), json!(format!("panic: {}", panic_msg(e))));
+        }
+    }
+    Value::Object(m)
 }
 
 // ---------------------------------------------------------------------------------------------- op format
@@ -299,87 +327,123 @@ fn op_format(req: &Value) -> Result<Value, Value> {
     let icu_loc = data_locale(lname);
     let kind = req["f"].as_str().or(req["kind"].as_str()).ok_or_else(|| bad("missing f"))?;
     let value = &req["value"];
+    let es = |e: &dyn std::fmt::Debug| format!("{e:?}");
     match kind {
         "number" => {
             let g = grouping(sfield(req, "g")?)?;
             let n = num_of(value)?;
-            let display = with_num!(n, x => lp::format_number_to_display(loc, x, g).to_string());
-            let formatter = with_num!(n, x => Fmt(|f: &mut fmt::Formatter<'_>| lp::format_number_to_formatter(f, loc, x.clone(), g)).to_string());
-            let view = with_num!(n, x => render(lp::format_number_to_view(loc, move || x.clone(), g)));
-            // oracle
-            let mut o = icu_decimal::options::FixedDecimalFormatterOptions::default();
-            o.grouping_strategy = g;
-            let fm = icu_decimal::FixedDecimalFormatter::try_new(&(&icu_loc).into(), o).expect("oracle: FixedDecimalFormatter");
-            let oracle = fm.format_to_string(&oracle_dec(&n));
-            Ok(out(display, formatter, view, oracle))
+            Ok(out(
+                || {
+                    let display = with_num!(n, x => lp::format_number_to_display(loc, x, g).to_string());
+                    let formatter = with_num!(n, x => Fmt(|f: &mut fmt::Formatter<'_>| lp::format_number_to_formatter(f, loc, x.clone(), g)).to_string());
+                    let view = with_num!(n, x => render(lp::format_number_to_view(loc, move || x.clone(), g)));
+                    (display, formatter, view)
+                },
+                || {
+                    let mut o = icu_decimal::options::FixedDecimalFormatterOptions::default();
+                    o.grouping_strategy = g;
+                    let fm = icu_decimal::FixedDecimalFormatter::try_new(&(&icu_loc).into(), o).map_err(|e| es(&e))?;
+                    Ok(fm.format_to_string(&oracle_dec(&n)))
+                },
+            ))
         }
         "currency" => {
             let w = width(sfield(req, "w")?)?;
             let c = code(sfield(req, "c")?)?;
             let n = num_of(value)?;
-            let display = with_num!(n, x => lp::format_currency_to_display(loc, x, w, c).to_string());
-            let formatter = with_num!(n, x => Fmt(|f: &mut fmt::Formatter<'_>| lp::format_currency_to_formatter(f, loc, x.clone(), w, c)).to_string());
-            let view = with_num!(n, x => render(lp::format_currency_to_view(loc, move || x.clone(), w, c)));
-            let mut o = CurrencyFormatterOptions::default();
-            o.width = w;
-            let fm = CurrencyFormatter::try_new(&(&icu_loc).into(), o).expect("oracle: CurrencyFormatter");
-            let d = oracle_dec(&n);
-            let oracle = fm.format_fixed_decimal(&d, c).write_to_string().into_owned();
-            Ok(out(display, formatter, view, oracle))
+            Ok(out(
+                || {
+                    let display = with_num!(n, x => lp::format_currency_to_display(loc, x, w, c).to_string());
+                    let formatter = with_num!(n, x => Fmt(|f: &mut fmt::Formatter<'_>| lp::format_currency_to_formatter(f, loc, x.clone(), w, c)).to_string());
+                    let view = with_num!(n, x => render(lp::format_currency_to_view(loc, move || x.clone(), w, c)));
+                    (display, formatter, view)
+                },
+                || {
+                    let mut o = CurrencyFormatterOptions::default();
+                    o.width = w;
+                    let fm = CurrencyFormatter::try_new(&(&icu_loc).into(), o).map_err(|e| es(&e))?;
+                    let d = oracle_dec(&n);
+                    Ok(fm.format_fixed_decimal(&d, c).write_to_string().into_owned())
+                },
+            ))
         }
         "date" => {
             let l = date_len(sfield(req, "d")?)?;
             let ymd: [i64; 3] = arr(ints(value, 3)?);
             let date = date_of(&ymd)?;
-            let display = lp::format_date_to_display(loc, &date, l).to_string();
-            let formatter = Fmt(|f: &mut fmt::Formatter<'_>| lp::format_date_to_formatter(f, loc, &date, l)).to_string();
-            let view = render(lp::format_date_to_view(loc, move || date_of(&ymd).unwrap(), l));
-            let fm = icu_datetime::DateFormatter::try_new_with_length(&(&icu_loc).into(), l).expect("oracle: DateFormatter");
-            let oracle = fm.format_to_string(&date).expect("oracle: date");
-            Ok(out(display, formatter, view, oracle))
+            Ok(out(
+                || {
+                    let display = lp::format_date_to_display(loc, &date, l).to_string();
+                    let formatter = Fmt(|f: &mut fmt::Formatter<'_>| lp::format_date_to_formatter(f, loc, &date, l)).to_string();
+                    let view = render(lp::format_date_to_view(loc, move || date_of(&ymd).unwrap(), l));
+                    (display, formatter, view)
+                },
+                || {
+                    let fm = icu_datetime::DateFormatter::try_new_with_length(&(&icu_loc).into(), l).map_err(|e| es(&e))?;
+                    fm.format_to_string(&date).map_err(|e| es(&e))
+                },
+            ))
         }
         "time" => {
             let l = time_len(sfield(req, "t")?)?;
             let time = time_of(&ints(value, 3)?)?;
-            let display = lp::format_time_to_display(loc, &time, l).to_string();
-            let formatter = Fmt(|f: &mut fmt::Formatter<'_>| lp::format_time_to_formatter(f, loc, &time, l)).to_string();
-            let view = render(lp::format_time_to_view(loc, move || time, l));
-            let fm = icu_datetime::TimeFormatter::try_new_with_length(&(&icu_loc).into(), l).expect("oracle: TimeFormatter");
-            let oracle = fm.format_to_string(&time);
-            Ok(out(display, formatter, view, oracle))
+            Ok(out(
+                || {
+                    let display = lp::format_time_to_display(loc, &time, l).to_string();
+                    let formatter = Fmt(|f: &mut fmt::Formatter<'_>| lp::format_time_to_formatter(f, loc, &time, l)).to_string();
+                    let view = render(lp::format_time_to_view(loc, move || time, l));
+                    (display, formatter, view)
+                },
+                || {
+                    let fm = icu_datetime::TimeFormatter::try_new_with_length(&(&icu_loc).into(), l).map_err(|e| es(&e))?;
+                    Ok(fm.format_to_string(&time))
+                },
+            ))
         }
         "datetime" => {
             let dl = date_len(sfield(req, "d")?)?;
             let tl = time_len(sfield(req, "t")?)?;
             let v: [i64; 6] = arr(ints(value, 6)?);
             let dt = datetime_of(&v)?;
-            let display = lp::format_datetime_to_display(loc, &dt, dl, tl).to_string();
-            let formatter = Fmt(|f: &mut fmt::Formatter<'_>| lp::format_datetime_to_formatter(f, loc, &dt, dl, tl)).to_string();
-            let view = render(lp::format_datetime_to_view(loc, move || datetime_of(&v).unwrap(), dl, tl));
-            let mut bag = length::Bag::empty();
-            bag.date = Some(dl);
-            bag.time = Some(tl);
-            let fm = icu_datetime::DateTimeFormatter::try_new(&(&icu_loc).into(), bag.into()).expect("oracle: DateTimeFormatter");
-            let oracle = fm.format_to_string(&dt).expect("oracle: datetime");
-            Ok(out(display, formatter, view, oracle))
+            Ok(out(
+                || {
+                    let display = lp::format_datetime_to_display(loc, &dt, dl, tl).to_string();
+                    let formatter = Fmt(|f: &mut fmt::Formatter<'_>| lp::format_datetime_to_formatter(f, loc, &dt, dl, tl)).to_string();
+                    let view = render(lp::format_datetime_to_view(loc, move || datetime_of(&v).unwrap(), dl, tl));
+                    (display, formatter, view)
+                },
+                || {
+                    let mut bag = length::Bag::empty();
+                    bag.date = Some(dl);
+                    bag.time = Some(tl);
+                    let fm = icu_datetime::DateTimeFormatter::try_new(&(&icu_loc).into(), bag.into()).map_err(|e| es(&e))?;
+                    fm.format_to_string(&dt).map_err(|e| es(&e))
+                },
+            ))
         }
         "list" => {
             let ty = sfield(req, "ty")?;
             let lty = list_ty(ty)?;
             let st = list_len(sfield(req, "st")?)?;
             let items = strs(value)?;
-            let display = lp::format_list_to_display(loc, items.clone(), lty, st).to_string();
-            let formatter = Fmt(|f: &mut fmt::Formatter<'_>| lp::format_list_to_formatter(f, loc, items.clone(), lty, st)).to_string();
-            let view = { let l = items.clone(); render(lp::format_list_to_view(loc, move || l.clone(), lty, st)) };
-            let dl = (&icu_loc).into();
-            let fm = match ty {
-                "and" => icu_list::ListFormatter::try_new_and_with_length(&dl, st),
-                "or" => icu_list::ListFormatter::try_new_or_with_length(&dl, st),
-                _ => icu_list::ListFormatter::try_new_unit_with_length(&dl, st),
-            }
-            .expect("oracle: ListFormatter");
-            let oracle = fm.format_to_string(items.iter());
-            Ok(out(display, formatter, view, oracle))
+            Ok(out(
+                || {
+                    let display = lp::format_list_to_display(loc, items.clone(), lty, st).to_string();
+                    let formatter = Fmt(|f: &mut fmt::Formatter<'_>| lp::format_list_to_formatter(f, loc, items.clone(), lty, st)).to_string();
+                    let view = { let l = items.clone(); render(lp::format_list_to_view(loc, move || l.clone(), lty, st)) };
+                    (display, formatter, view)
+                },
+                || {
+                    let dl = (&icu_loc).into();
+                    let fm = match ty {
+                        "and" => icu_list::ListFormatter::try_new_and_with_length(&dl, st),
+                        "or" => icu_list::ListFormatter::try_new_or_with_length(&dl, st),
+                        _ => icu_list::ListFormatter::try_new_unit_with_length(&dl, st),
+                    }
+                    .map_err(|e| es(&e))?;
+                    Ok(fm.format_to_string(items.iter()))
+                },
+            ))
         }
         other => Err(bad(format!("unknown formatter kind {other}"))),
     }
